@@ -101,6 +101,13 @@ impl BlockEncoder {
                 self.block_multiplex_index = 0;
             }
 
+            // true when no other block of the window has a symbol left to send
+            let is_last_block = self
+                .blocks
+                .iter()
+                .enumerate()
+                .all(|(index, block)| index == self.block_multiplex_index || block.is_empty());
+
             let block = &mut self.blocks[self.block_multiplex_index];
             let symbol = block.read();
             if symbol.is_none() {
@@ -119,7 +126,8 @@ impl BlockEncoder {
 
             let is_last_packet = (self.source_size_transferred
                 >= self.file.object.transfer_length as usize)
-                && *is_last_symbol;
+                && *is_last_symbol
+                && is_last_block;
 
             return Some(pkt::Pkt {
                 payload: symbol.symbols.to_vec(),
